@@ -138,7 +138,10 @@ class ByteArray(SimpleModel):
     def from_urlsafe_base64(cls, value):
         #FIXME: Find out why we need to do this.
         if isinstance(value, six.text_type):
-            value = value.encode('utf8')
+            try:
+                value = value.encode('utf8')
+            except UnicodeError:  # a lone surrogate, eg. "\ud800" in json
+                raise ValidationError(value)
         try:
             if isinstance(value, (list, tuple)):
                 return (urlsafe_b64decode(_bytes_join(value)),)
